@@ -12,7 +12,8 @@ import MdVerif.Driver.Cell
 import MdVerif.Driver.Nb
 import MdVerif.Driver.Ang
 import MdVerif.Driver.Sasa
-open MdVerif MdVerif.Driver MdVerif.Driver.TrajP MdVerif.Driver.TopoP MdVerif.Driver.WriterP MdVerif.Driver.SelP MdVerif.Driver.MicP MdVerif.Driver.CellP MdVerif.Driver.NbP MdVerif.Driver.AngP MdVerif.Driver.SasaP
+import MdVerif.Driver.Qcp
+open MdVerif MdVerif.Driver MdVerif.Driver.TrajP MdVerif.Driver.TopoP MdVerif.Driver.WriterP MdVerif.Driver.SelP MdVerif.Driver.MicP MdVerif.Driver.CellP MdVerif.Driver.NbP MdVerif.Driver.AngP MdVerif.Driver.SasaP MdVerif.Driver.QcpP
 
 def handle (line : String) : String :=
   let ws := (line.splitOn " ").filter (· ≠ "")
@@ -27,6 +28,7 @@ def handle (line : String) : String :=
   | "nbl" :: _ | "nbs" :: _ => handleNb ws
   | "ang" :: _ | "dih" :: _ | "tors" :: _ => handleAng ws
   | "sasa" :: _ => handleSasa ws
+  | "qcp" :: _ | "qrot" :: _ => handleQcp ws
   | _ => "bad-op"
 
 partial def loop (h : IO.FS.Stream) (out : IO.FS.Stream) : IO Unit := do
